@@ -60,7 +60,7 @@ class C09(P.Property):
             "service + idle periods + latency/segmentation/skew + at most one fault; non-trivial = at least one re-creation or restart "
             "and at least one search answered; distinct = digest of (scheme, cfg index, placement vector, result classes)")
     real_stub = dict(deployment="everything under frontend/, schemes/, toolkit/ real; websockets real; loop/clock/TCP/process lifetime simulated; "
-                                "disk real with mutation seam")
+                                "disk real with mutation seam; wall clock (time.time) and file time stamps (os.stat) simulated: follow the virtual clock, steppable, per-run stamp granularity; 1 of 16 workers under python -O")
     assumptions = ["a server restart implies that the client object is re-created (a client holding a dead socket is not the property's subject)",
                    "an operation hit by an injected fault (stall >= 60 s, failing read, blocker, kill mid-request), or issued on the client object "
                    "that sat through one, may fail; it may never deliver another keyword's result, and a new client object must then succeed",
